@@ -50,6 +50,23 @@ RECURSIVE HexVal(_, _, _)
 HexVal(x, i, acc) == IF i > Len(x) THEN acc ELSE HexVal(x, i + 1, Min2(Cap, acc * 16 + HexDigit(x[i])))
 
 (* ---- request line ---- *)
+BadAuthority(t) ==
+  LET S == {i \in 1..(Len(t) - 2) : t[i] = 58 /\ t[i + 1] = 47 /\ t[i + 2] = 47}            \* "://"
+  IN IF S = {} THEN FALSE
+     ELSE LET a == SetMin(S) + 3
+              E == {i \in a..Len(t) : t[i] \in {47, 63, 35}}                                   \* "/" "?" "#"
+              b == IF E = {} THEN Len(t) ELSE SetMin(E) - 1
+              auth == Slice(t, a, b)
+              O == {i \in 1..Len(auth) : auth[i] = 91}
+              C == {i \in 1..Len(auth) : auth[i] = 93}
+          IN IF O = {} /\ C = {} THEN FALSE
+             ELSE ~(/\ Cardinality(O) = 1 /\ Cardinality(C) = 1
+                    /\ LET o == SetMin(O) c == SetMin(C) IN
+                         /\ o + 1 < c
+                         /\ (o = 1 \/ auth[o - 1] = 64)                                           \* start of the host (after userinfo "@")
+                         /\ \A i \in (o + 1)..(c - 1) : Hex(auth[i]) \/ auth[i] \in {58, 46}
+                         /\ (c = Len(auth) \/ auth[c + 1] = 58))
+
 ReqLine(line) ==
   LET sp1 == {i \in 1..Len(line) : line[i] = 32}
   IN IF sp1 = {} THEN [ok |-> FALSE]
@@ -66,7 +83,10 @@ ReqLine(line) ==
               v10 |-> ver = <<72, 84, 84, 80, 47, 49, 46, 48>>,
               ver |-> ver,
               lowerMethod |-> \E i \in 1..Len(method) : method[i] \in 97..122,
-              obsTarget |-> \E i \in 1..Len(target) : Obs(target[i])]
+              obsTarget |-> \E i \in 1..Len(target) : Obs(target[i]),
+              (* absolute-form whose authority has a square bracket that is not part of one well-formed IP literal
+                 ("[" 1*( HEXDIG / ":" / "." ) "]" at the end of the host, optionally followed by ":port"): not a URI *)
+              badAuth |-> BadAuthority(target)]
 
 (* ---- header section: join obs-fold continuation lines, then parse each field line ---- *)
 RECURSIVE Unfold(_, _, _)
@@ -206,7 +226,7 @@ Msg(s, p0, cfg) ==
               (* a request line without / with another version leaves persistence to the server *)
               baseClose == (rl.v11 /\ conn = CLOSE) \/ (rl.v10 /\ ~keep10)
               mk(body, next, close, alsoRefuse, codes) ==
-                 [inc |-> FALSE, deliverOK |-> ~dupHost, refuseOK |-> alsoRefuse \/ (e + 4 - p0) >= cfg.maxh \/ dupHost \/ dupCtype \/ teEmptyElems \/ ctlField \/ folded \/ rl.lowerMethod \/ rl.obsTarget \/ (~rl.v11 /\ ~rl.v10),
+                 [inc |-> FALSE, deliverOK |-> ~dupHost, refuseOK |-> alsoRefuse \/ (e + 4 - p0) >= cfg.maxh \/ dupHost \/ dupCtype \/ teEmptyElems \/ ctlField \/ folded \/ rl.lowerMethod \/ rl.obsTarget \/ rl.badAuth \/ (~rl.v11 /\ ~rl.v10),
                   codes |-> codes \cup {400} \cup (IF teEmptyElems THEN {501} ELSE {}) \cup (IF (e + 4 - p0) >= cfg.maxh THEN {431} ELSE {}),
                   next |-> next, empty |-> FALSE,
                   method |-> rl.method, target |-> rl.target, v11 |-> rl.v11, nfields |-> Len(good), body |-> body,
